@@ -136,6 +136,20 @@ type FullE struct {
 	Kids []EBase `json:"kids" validate:"omitempty,max=1,dive"`
 }
 
+// FullU: users embed a struct of an unexported type; encoding/json promotes its exported fields.
+type ucreds struct {
+	Password string `json:"password" validate:"omitempty,min=8"`
+	Pin      string `json:"pin" validate:"omitempty,len=4"`
+}
+type UUser struct {
+	Name string `json:"name" validate:"required,min=2"`
+	ucreds
+}
+type FullU struct {
+	Owner UUser   `json:"owner"`
+	Users []UUser `json:"users" validate:"omitempty,max=1,dive"`
+}
+
 // FullV has a Validate() method of its own (interface strategy, and WithRunAll together with tags).
 type FullV struct {
 	Email string `json:"email" validate:"required,email"`
@@ -159,6 +173,7 @@ func (f *FullV) Validate() error {
 var namedTypes = map[string]reflect.Type{
 	"FullV": reflect.TypeOf(FullV{}),
 	"FullE": reflect.TypeOf(FullE{}),
+	"FullU": reflect.TypeOf(FullU{}),
 	"FullA": reflect.TypeOf(FullA{}),
 	"FullB": reflect.TypeOf(FullB{}),
 	"FullC": reflect.TypeOf(FullC{}),
@@ -525,7 +540,7 @@ func genCase(r *hx.Rand, tier string) caseT {
 	switch r.Intn(10) {
 	case 0, 1: // full mode on a compiled named type
 		c.Mode = 1
-		c.Named = hx.Pick(r, []string{"FullA", "FullB", "FullC", "FullE"})
+		c.Named = hx.Pick(r, []string{"FullA", "FullB", "FullC", "FullE", "FullU"})
 		t := describe(namedTypes[c.Named])
 		b, _ := json.Marshal(genObject(r, t, 0))
 		c.Body = string(b)
@@ -545,6 +560,14 @@ func genCase(r *hx.Rand, tier string) caseT {
 		c.T = genType(r, 0)
 		b, _ := json.Marshal(genObject(r, c.T, 0))
 		c.Body = string(b)
+	case 4:
+		if r.Chance(1, 2) { // partial mode on a compiled type (embedded structs of exported and unexported types)
+			c.Named = hx.Pick(r, []string{"FullE", "FullU", "FullA"})
+			b, _ := json.Marshal(genObject(r, describe(namedTypes[c.Named]), 0))
+			c.Body = string(b)
+			break
+		}
+		fallthrough
 	default:
 		c.T = genType(r, 0)
 		var body any = genObject(r, c.T, 0)
@@ -969,6 +992,8 @@ type obsT struct {
 	fields [][3]string // path, code, hidden
 	leak   bool
 	other  string
+	// clobbered: the callee wrote into the spare capacity of the caller's option slice
+	clobbered bool
 }
 
 func (o *obsT) key() string {
@@ -1008,6 +1033,11 @@ func redactor(c *caseT) validation.Redactor {
 	return func(p string) bool { return set[p] || (sub != "" && strings.Contains(p, sub)) }
 }
 
+// caseValidator is the Validator built from the case's options (variants 1 and 2): one per case,
+// used for every repetition, so that a call that writes into the Validator's base configuration
+// shows as a difference between repetitions.
+var caseValidator *validation.Validator
+
 func observe(c *caseT, rt reflect.Type, secrets []string) (o obsT) {
 	body := []byte(c.Body)
 	pm, err := validation.ComputePresence(body)
@@ -1021,7 +1051,9 @@ func observe(c *caseT, rt reflect.Type, secrets []string) (o obsT) {
 	if !c.ViaApp {
 		_ = json.Unmarshal(body, ptr.Interface())
 	}
-	var opts []validation.Option
+	// the option list has spare capacity: a callee that appends to it in place writes into the
+	// caller's backing array (checked after the call)
+	opts := make([]validation.Option, 0, 12)
 	switch {
 	case c.Mode == 2:
 		opts = append(opts, validation.WithRunAll(true))
@@ -1096,10 +1128,15 @@ func observe(c *caseT, rt reflect.Type, secrets []string) (o obsT) {
 				base = append(base, validation.WithMaxErrors(c.MaxErrors+1))
 				call = []validation.Option{validation.WithMaxErrors(c.MaxErrors)}
 			}
-			vv, nerr := validation.New(base...)
-			if nerr != nil {
-				o.other = "New: " + nerr.Error()
-				return
+			vv := caseValidator
+			if vv == nil {
+				var nerr error
+				vv, nerr = validation.New(base...)
+				if nerr != nil {
+					o.other = "New: " + nerr.Error()
+					return
+				}
+				caseValidator = vv
 			}
 			if c.Mode == 0 {
 				verr = vv.ValidatePartial(ctx, ptr.Interface(), pm, call...)
@@ -1118,6 +1155,12 @@ func observe(c *caseT, rt reflect.Type, secrets []string) (o obsT) {
 			verr = sharedValidator.Validate(ctx, ptr.Interface(), opts...)
 		}
 	}()
+	for _, spare := range opts[len(opts):cap(opts)] {
+		if spare != nil {
+			o.other = "" // not a skip: report it through the determinism bit
+			o.clobbered = true
+		}
+	}
 	if o.kind == "P" {
 		return o
 	}
@@ -1375,11 +1418,12 @@ func emit(id string, c caseT, st *hx.Stats) string {
 	in := l.String()
 
 	secrets := secretsOf(root, red)
+	caseValidator = nil
 	o := observe(&c, rt, secrets)
-	det := true
+	det := !o.clobbered
 	for i := 0; i < 8; i++ {
 		o2 := observe(&c, rt, secrets)
-		if o2.key() != o.key() {
+		if o2.key() != o.key() || o2.clobbered {
 			det = false
 		}
 	}
@@ -1530,8 +1574,10 @@ func fixedCases() []caseT {
 		{Body: `{"userName":"ab","apiKey":"q2_short","Owner":{"name":"abc"},"rows":[["a"]],"kidsList":[{"name":"abc"}]}`, Named: "FullC", Mode: 1, Redact: []string{"apiKey", "rows.0.0"}},   // K05e
 		{Body: `{"email":"x","age":9,"nerr":2}`, Named: "FullV", Mode: 2, MaxErrors: 3},                                                                                                      // K05g
 		{Body: `{"email":"x","age":9,"nerr":4}`, Named: "FullV", Mode: 3, MaxErrors: 2},
-		{Body: `{"id":"x","kind":"zzz","name":"n","token":"short"}`, Named: "FullE", Mode: 0},                                                                                                                              // K05h
-		{Body: `{"id":"x","kind":"zzz","name":"n","token":"q9_short"}`, Named: "FullE", Mode: 1, Redact: []string{"token", "id"}},                                                                                          // K05h (full)
+		{Body: `{"id":"x","kind":"zzz","name":"n","token":"short"}`, Named: "FullE", Mode: 0},                                                                              // K05h
+		{Body: `{"id":"x","kind":"zzz","name":"n","token":"q9_short"}`, Named: "FullE", Mode: 1, Redact: []string{"token", "id"}},                                          // K05h (full)
+		{Body: `{"users":[{"name":"al","password":"q7_hunter2x"},{"name":"bo","password":"q8_s3cretxx"}]}`, Named: "FullU", Mode: 1, Redact: []string{"users.1.password"}}, // container value, unexported embedded struct
+		{Body: `{"owner":{"name":"a","password":"short","pin":"12"}}`, Named: "FullU", Mode: 0},
 		{Body: `{"1":"abc","2":{"3":"x"}}`, T: &TypeT{Fields: []FieldT{{JSON: "1", Kind: "string", Tag: "email"}, {JSON: "2", Kind: "struct", Sub: &TypeT{Fields: []FieldT{{JSON: "3", Kind: "string", Tag: "min=2"}}}}}}}, // K05d
 	}
 }
